@@ -1,4 +1,5 @@
 """Instruction semantics (mixin of FuncRun)."""
+import re
 from . import terms as T
 from .state import State, fresh_like, same_value
 from .cparse import ParseError
@@ -492,7 +493,7 @@ class InstrMixin:
                 self.assume_facts(v, et)
                 okv = T.TRUE
                 self.setreg(ctx, ins, v)
-            self.on_recv(ctx, st, x, v, vt, okv, T.TRUE)
+            self.on_recv(ctx, st, x, v, vt, okv, T.TRUE, alternatives=0, ins=ins)
             self.sync_point(st)
             return
         raise Unsupported('unop %s' % tok)
@@ -806,16 +807,19 @@ class InstrMixin:
                 self.on_send(ctx, ins, st, self.val(ctx, s_['chan']), self.val(ctx, s_['send']), guard=T.eq(idx, T.I(j)))
             else:
                 et = self.ty.elem(s_['chantype'])
-                self.on_recv(ctx, st, self.val(ctx, s_['chan']), items[k_], et, items[1], T.eq(idx, T.I(j)))
+                self.on_recv(ctx, st, self.val(ctx, s_['chan']), items[k_], et, items[1], T.eq(idx, T.I(j)),
+                             alternatives=n - 1 + (0 if ins['blocking'] else 1), ins=ins)
                 k_ += 1
         self.setreg(ctx, ins, TupleV(items))
 
     def i_Send(self, ctx, ins, st):
         self.on_send(ctx, ins, st, self.val(ctx, ins['chan']), self.val(ctx, ins['x']), guard=T.TRUE)
 
-    def on_recv(self, ctx, st, ch, v, vt, okv, guard):
+    def on_recv(self, ctx, st, ch, v, vt, okv, guard, alternatives=0, ins=None):
         """recv clause of the channel: ghost bookkeeping (modifies) + ASSUMED facts about what the channel carries
-        (the senders' contracts).  `ok` is visible to the clauses (false = channel closed)."""
+        (the senders' contracts).  `ok` is visible to the clauses (false = channel closed).  `requires` clauses are
+        CHECKED where the receive is attempted; they may mention `alternatives`: the number of other ways out of the
+        wait (other cases of the same select, +1 for a default): 0 for a plain blocking receive."""
         rs = self.chanspec(self.recvspecs, ctx, st, ch)
         if rs is None:
             return
@@ -825,6 +829,17 @@ class InstrMixin:
         names[argn] = (v, vt)
         names['ok'] = (okv, None)
         cn = self.cellnames_for(ctx, ctx.get('block'))
+        if rs.requires:
+            nm2 = dict(self.base_names)
+            nm2['alternatives'] = (T.I(alternatives), 'int')
+            envr = Env(nm2, st, self.entry_state, cn, self.pkg, prefer_cells=True)
+            for c in rs.requires:
+                try:
+                    self.oblige('pre', self.eval_bool(c.parse(), envr), st, 'receive from %s: %s' % (rs.name, c.text),
+                                (ins or {}).get('pos') or c.src, clause=c, slug='recv-%s-%s' % (re.sub(r'[^A-Za-z0-9_.]', '-', rs.name)[:30], c.slug()),
+                                fnname=self.cur_name(ctx))
+                except Unsupported as e:
+                    self.elab_fail('recv clause %r: %s' % (c.text, e), c)
 
         def apply(s_):
             pre = s_.copy()
